@@ -379,43 +379,91 @@ func resolveLineGroups(p *load.Prog, parse *ssa.Function, sub *ssa.Call) (lineGr
 		return g, "value argument of newNode is not a submatch group"
 	}
 	g.value = int(k)
-	// pointer: phi("", slice(group[kp], 1, len(group[kp])-2))
-	phi, ok := nn.Call.Args[pi].(*ssa.Phi)
-	if !ok {
-		return g, "pointer argument of newNode is not the optional trimmed group"
-	}
-	for _, e := range phi.Edges {
-		if s, ok := su.ConstString(e); ok {
+	// pointer: "" or group[kp][1 : len(group[kp])-2], chosen by a phi in parseLine or computed by a small helper
+	// that receives the group
+	var analyse func(v ssa.Value, groupOf func(ssa.Value) (int64, bool), depth int) string
+	analyse = func(v ssa.Value, groupOf func(ssa.Value) (int64, bool), depth int) string {
+		if depth > 3 {
+			return "pointer argument of newNode is not the optional trimmed group"
+		}
+		if s, ok := su.ConstString(v); ok {
 			if s != "" {
-				return g, "pointer default is not the empty string"
+				return "pointer default is not the empty string"
 			}
-			continue
+			return ""
 		}
-		sl, ok := e.(*ssa.Slice)
-		if !ok {
-			return g, "pointer is not a slice of a submatch group"
-		}
-		base, k, ok := su.ElemOf(sl.X)
-		if !ok || base != ssa.Value(sub) {
-			return g, "pointer is not a slice of a submatch group"
-		}
-		g.pointer = int(k)
-		lo, okLo := su.ConstInt(sl.Low)
-		hiOK := false
-		if bo, ok := sl.High.(*ssa.BinOp); ok && bo.Op == token.SUB {
-			if c, ok := su.ConstInt(bo.Y); ok && c == 2 {
-				if ln, ok := bo.X.(*ssa.Call); ok {
-					if bi, ok := ln.Call.Value.(*ssa.Builtin); ok && bi.Name() == "len" {
-						if b2, k2, ok := su.ElemOf(ln.Call.Args[0]); ok && b2 == ssa.Value(sub) && k2 == k {
-							hiOK = true
+		switch x := v.(type) {
+		case *ssa.Phi:
+			for _, e := range x.Edges {
+				if why := analyse(e, groupOf, depth); why != "" {
+					return why
+				}
+			}
+			return ""
+		case *ssa.Slice:
+			k, ok := groupOf(x.X)
+			if !ok {
+				return "pointer is not a slice of a submatch group"
+			}
+			g.pointer = int(k)
+			lo, okLo := su.ConstInt(x.Low)
+			hiOK := false
+			if bo, ok := x.High.(*ssa.BinOp); ok && bo.Op == token.SUB {
+				if c, ok := su.ConstInt(bo.Y); ok && c == 2 {
+					if ln, ok := bo.X.(*ssa.Call); ok {
+						if bi, ok := ln.Call.Value.(*ssa.Builtin); ok && bi.Name() == "len" {
+							if k2, ok := groupOf(ln.Call.Args[0]); ok && k2 == k {
+								hiOK = true
+							}
 						}
 					}
 				}
 			}
+			if !okLo || lo != 1 || !hiOK {
+				return "TRIM"
+			}
+			return ""
+		case *ssa.Call:
+			cal := x.Call.StaticCallee()
+			if cal == nil || !p.IsRepoFunc(cal) || len(cal.Blocks) == 0 || len(x.Call.Args) != 1 || len(cal.Params) != 1 {
+				return "pointer argument of newNode is not the optional trimmed group"
+			}
+			k, ok := groupOf(x.Call.Args[0])
+			if !ok {
+				return "pointer helper is not applied to a submatch group"
+			}
+			prm := cal.Params[0]
+			inner := func(v2 ssa.Value) (int64, bool) {
+				if v2 == ssa.Value(prm) {
+					return k, true
+				}
+				return 0, false
+			}
+			n := 0
+			for _, b := range cal.Blocks {
+				if ret, ok := b.Instrs[len(b.Instrs)-1].(*ssa.Return); ok && len(ret.Results) == 1 {
+					n++
+					if why := analyse(ret.Results[0], inner, depth+1); why != "" {
+						return why
+					}
+				}
+			}
+			if n == 0 {
+				return "pointer helper never returns"
+			}
+			return ""
 		}
-		if !okLo || lo != 1 || !hiOK {
-			return g, "TRIM"
+		return "pointer argument of newNode is not the optional trimmed group"
+	}
+	outer := func(v ssa.Value) (int64, bool) {
+		base, k, ok := su.ElemOf(v)
+		if !ok || base != ssa.Value(sub) {
+			return 0, false
 		}
+		return k, true
+	}
+	if why := analyse(nn.Call.Args[pi], outer, 0); why != "" {
+		return g, why
 	}
 	if g.pointer == 0 {
 		return g, "no pointer group found"
